@@ -50,7 +50,7 @@ def markets(rnd, n, sid="M"):
                 if r < 0.10:
                     c = rnd.choice(BANCOR + created)
                     if rnd.random() < 0.5:
-                        t.update(type="SellCoin", args={"sell": c, "buy": rnd.choice(["BIP", "BIP"] + BANCOR), "value": amt(rnd, 1, 500), "min": rnd.choice(["0", "0", "1", "100000u"])})
+                        t.update(type="SellCoin", args={"sell": c, "buy": rnd.choice(["BIP", "BIP"] + BANCOR), "value": amt(rnd, 1, 500), "min": rnd.choice(["0", "0", "1", "100000u", "tight", "tight+1"])})
                     else:
                         t.update(type="SellCoin", args={"sell": "BIP", "buy": c, "value": amt(rnd, 1, 5000), "min": "0"})
                 elif r < 0.125:
@@ -65,14 +65,14 @@ def markets(rnd, n, sid="M"):
                 elif r < 0.17:
                     c = rnd.choice(BANCOR + created)
                     s = rnd.choice(["BIP"] + BANCOR)
-                    t.update(type="BuyCoin", args={"buy": c, "sell": s, "value": amt(rnd, 1, 300), "max": rnd.choice(["10000000u", "1", "100u"])})
+                    t.update(type="BuyCoin", args={"buy": c, "sell": s, "value": amt(rnd, 1, 300), "max": rnd.choice(["10000000u", "1", "100u", "tight", "tight-1"])})
                 elif r < 0.21:
                     t.update(type="SellAllCoin", args={"sell": rnd.choice(BANCOR + ["BIP"]), "buy": rnd.choice(BANCOR + ["BIP"]), "min": "0"})
                 elif r < 0.36:
                     # limits: none, absurd, and tight ones (the estimate on the current reserves, exactly / one per mille below / above)
-                    t.update(type="SellSwapPool", args={"coins": route(rnd), "value": amt(rnd, 1, 3000), "min": rnd.choice(["0", "0", "1", "1000000u", "quote:1000", "quote:1000", "quote:999", "quote:1001", "quote:990"])})
+                    t.update(type="SellSwapPool", args={"coins": route(rnd), "value": amt(rnd, 1, 3000), "min": rnd.choice(["0", "0", "1", "1000000u", "quote:1000", "tight", "quote:999", "quote:1001", "quote:990"])})
                 elif r < 0.46:
-                    t.update(type="BuySwapPool", args={"coins": route(rnd), "value": amt(rnd, 1, 500), "max": rnd.choice(["100000000u", "100000000u", "1", "quote:1000", "quote:1000", "quote:1001", "quote:999", "quote:1010"])})
+                    t.update(type="BuySwapPool", args={"coins": route(rnd), "value": amt(rnd, 1, 500), "max": rnd.choice(["100000000u", "100000000u", "1", "quote:1000", "tight", "quote:1001", "quote:999", "quote:1010"])})
                 elif r < 0.50:
                     t.update(type="SellAllSwapPool", args={"coins": route(rnd), "min": "0"})
                 elif r < 0.64:
